@@ -499,8 +499,10 @@ func (self AnalyzedIndexExpression) Span() errors.Span    { return self.Range }
 func (self AnalyzedIndexExpression) String() string {
 	return fmt.Sprintf("%s[%s]", self.Base, self.Index)
 }
-func (self AnalyzedIndexExpression) Type() Type     { return self.ResultType }
-func (self AnalyzedIndexExpression) Constant() bool { return self.Base.Constant() }
+func (self AnalyzedIndexExpression) Type() Type { return self.ResultType }
+func (self AnalyzedIndexExpression) Constant() bool {
+	return self.Base.Constant() && self.Index.Constant()
+}
 
 //
 // Member expression
